@@ -22,14 +22,15 @@ import gen_lock
 import regen_lock
 import lock_stress
 
-RULE = ("cases = (2..8 thread programs of nested API calls / callbacks of the 5 macro kinds, schedule) from "
+RULE = ("cases = (2..8 thread programs of nested API calls - the driver's transcribed wrapper or the real coap_handle_event() - / callbacks of the 5 macro kinds, schedule) from "
         "the corpus, a seeded generator (uniform / bursty / round-robin / one-thread-first / short schedules) "
-        "and the exhaustive interleavings of pairs from a catalogue of 9 small programs; each is run on the "
+        "and the interleavings of pairs from a catalogue of 10 small programs (all of them up to 40 (quick) / 3000 (thorough) per pair, else half lexicographic half random); each is run on the "
         "real lock code and on the extracted model and compared step by step; non-trivial = at least 2 "
         "threads, at least one callback macro in a program, and the implementation's trace contains a "
         "blocked lock attempt or a state with in_callback >= 1; distinct = distinct case line")
 
-WRAPS = ["pthread_mutex_lock", "pthread_mutex_unlock", "pthread_mutex_trylock", "pthread_self"]
+WRAPS_RC = ["pthread_mutex_lock", "pthread_mutex_unlock", "pthread_mutex_trylock", "pthread_self"]
+WRAPS = WRAPS_RC + ["coap_lock_lock_func", "coap_lock_unlock_func"]
 GEN_REL = os.path.join("Gen", "LockConfig.v")
 
 
@@ -71,7 +72,7 @@ def trace_nontrivial(line, out):
     toks = line.split()
     n = int(toks[1])
     progs = toks[2:2 + n]
-    if n < 2 or not any(c in p for p in progs for c in "kKrRi"):
+    if n < 2 or not any(c in p for p in progs for c in "kKrRiE"):
         return False
     if "b1." in out or "b0." in out:
         return True
@@ -87,7 +88,7 @@ def main(run):
         "model: Lock/LockModel.v - lk_lock_func / lk_unlock_func transcribed by hand from "
         "src/coap_threadsafe.c (compared with the compiled functions step by step on every run)",
         "translator tools/regen_lock.py: C preprocessor (gcc -E) + a small statement parser / path "
-        "enumerator; exception tables API_EXCEPTIONS, CB_EXCEPTIONS, CB_INTERNAL (listed in notes/C13.md)",
+        "enumerator with guard tracking; tables CB_EXCEPTIONS, CB_INTERNAL (listed in notes/C13.md)",
         "harness/h_lock.c: ucontext coroutines, simulated mutex (ld --wrap pthread_mutex_lock/unlock/"
         "trylock on &global_lock.mutex, pthread_self); the API wrapper and the coap_io_process wait are "
         "transcribed in the driver (their shape in the tree is checked by the translator)",
@@ -115,18 +116,35 @@ def main(run):
     # ---- (ii)+(iii) translator
     srcs = vlib.lib_sources(lib["cfg"])
     try:
-        c, diag = regen_lock.translate(vlib.REPO, lib["cfg"], srcs, compiled, reports)
+        with vlib.Lock("accfg"):
+            ac_dir = regen_lock.ensure_autoconf_cfg(vlib.REPO, vlib.BUILD)
+        c, diag = regen_lock.translate(vlib.REPO, lib["cfg"], srcs, compiled, reports, ac_cfg=ac_dir)
     except regen_lock.TranslatorError as e:
         run.violation("translator cannot transcribe the lock macros: %s" % e, str(e), tag="translator",
                       no_input=True)
         return
-    diffs = regen_lock.differences(c)
+    rc_cfg = diag["rc"]
+    ac_cfg = diag["ac"]
+    diffs = regen_lock.differences(c) + regen_lock.differences(rc_cfg, "[COAP_THREAD_RECURSIVE_CHECK variant] ") + \
+        regen_lock.differences(ac_cfg, "[autoconf configuration] ")
+    if diag["wait"]["stale_event_paths"]:
+        diffs.append("coap_io_process_with_fds_lkd hands epoll events to coap_io_do_epoll_lkd that were collected "
+                     "while the lock was released (sockets of sessions freed in between are dereferenced): paths %s"
+                     % diag["wait"]["stale_event_paths"])
+    if (diag["static"]["compiled"], diag["static"]["reports"]) != (compiled, reports):
+        diffs.append("the built library (lock functions present=%s, coap_threadsafe_is_supported()=%s) differs from "
+                     "what the preprocessor says for the same configuration (%s, %s)"
+                     % (compiled, reports, diag["static"]["compiled"], diag["static"]["reports"]))
     run.cov["translator"] = {
         "compiled": compiled, "reports": reports, "macro_paths": diag["macros"], "wait": diag["wait"],
         "api_functions": diag["api"]["functions"], "api_by_verdict": diag["api"]["by_verdict"],
         "callback_sites": diag["callbacks"]["sites"], "callback_by_verdict": diag["callbacks"]["by_verdict"],
-        "differences": diffs, "driver_sees_macro": int(m.group(2))}
-    gen_text = regen_lock.render(c)
+        "differences": diffs, "driver_sees_macro": int(m.group(2)),
+        "recursive_check_variant": {k: rc_cfg[k] for k in ("compiled", "reports", "api", "keep", "keepret",
+                                                             "rel", "relret", "wait")},
+        "autoconf_configuration": {k: ac_cfg[k] for k in ("compiled", "reports", "api", "keep", "keepret", "rel",
+                                                          "relret", "wait", "_values")}}
+    gen_text = regen_lock.render(c, rc_cfg, ac_cfg)
     install_gen(gen_text)
     # ---- proof
     run.prove()
@@ -136,19 +154,50 @@ def main(run):
     lines = list(vlib.read_corpus("C13"))
     kinds = ["corpus"] * len(lines)
     n = 2500 if run.tier == "quick" else 60000
+    replay_stress = None
+    if getattr(run, "replay", None):
+        # --replay <file>: only the case / the stress command recorded in a replay file
+        txt = open(run.replay).read()
+        mcase = re.search(r"^case: (lk .*)$", txt, re.M)
+        mcmd = re.search(r"h_lock_stress (\d+) (\d+) (\d+)(?: (\d+))?\s+\(variant (\w+)\)", txt)
+        lines = [mcase.group(1)] if mcase else []
+        kinds = ["replay"] * len(lines)
+        n = 0
+        if mcmd:
+            replay_stress = [(mcmd.group(5), int(mcmd.group(1)), int(mcmd.group(2)), int(mcmd.group(4) or 0))]
     for _ in range(n):
         ln, style = gen_lock.gen_case(r)
         lines.append(ln)
         kinds.append("gen-" + style)
-    cat = gen_lock.CATALOGUE
-    lim = 40 if run.tier == "quick" else None
+    cat = gen_lock.CATALOGUE if not getattr(run, "replay", None) else []
+    lim = 40 if run.tier == "quick" else 3000
     for a in cat:
         for b in cat:
-            for s in gen_lock.interleavings(a, b, limit=lim):
+            for s in gen_lock.interleavings(a, b, limit=lim, rng=r):
                 lines.append("lk 2 %s %s %s" % (a, b, s))
                 kinds.append("interleave")
     om, oc, crashes = tie.run_both(model, drv, lines, timeout=600)
     run.cov["driver_crashes"] = len(crashes)
+    # the COAP_THREAD_RECURSIVE_CHECK variant of the lock functions and macros (the autoconf default),
+    # compiled into a second driver: same cases, same model
+    drv_rc = vlib.build_driver("h_lock_rc", ["h_lock.c"], "base", wraps=WRAPS_RC,
+                               extra=["-DCOAP_THREAD_RECURSIVE_CHECK=1", "-DLK_STANDALONE_RC"])
+    orc, crashes_rc = vlib.run_lines_robust(drv_rc, [gen_lock.expand_real_calls(ln) for ln in lines], timeout=600)
+    run.cov["driver_crashes_rc"] = len(crashes_rc)
+    nbad_rc = 0
+    for i, ln in enumerate(lines):
+        if orc[i] != om[i]:
+            nbad_rc += 1
+            em = re.search(r" end=(\d) done=(\d+)$", orc[i])
+            if nbad_rc <= 2:
+                concrete = not em or em.group(1) != "0"
+                run.violation("COAP_THREAD_RECURSIVE_CHECK variant of the lock code %s (%s)" %
+                              ("violates the lock protocol" if concrete else "disagrees with the model step by step",
+                               kinds[i]),
+                              "case: %s\nimpl (RECURSIVE_CHECK build of src/coap_threadsafe.c + macros): %s\n"
+                              "model: %s\nreplay: echo '<case>' | .build/obj/base/h_lock_rc\n" % (ln, orc[i], om[i]),
+                              tag="rc%d" % nbad_rc, no_input=not concrete)
+    run.cov["disagreements_rc"] = nbad_rc
     nbad = nor = 0
     maxincb = 0
     for i, ln in enumerate(lines):
@@ -160,6 +209,7 @@ def main(run):
         em = re.search(r" end=(\d) done=(\d+)$", co)
         run.hist("impl_verdict", em.group(1) if em else "crash")
         run.hist("blocked_attempts", "yes" if re.search(r"\db\d", co) else "no")
+        run.hist("real_api_call", "yes" if "E(" in ln else "no")
         for mm in re.finditer(r"[+b]\d+\.\d+\.(-?\d+)\.", co):
             maxincb = max(maxincb, int(mm.group(1)))
         if i % 900 == 3:
@@ -191,7 +241,7 @@ def main(run):
         pred = vlib.run_lines(model, [], ["lkv gen " + ln[3:] for ln in lines[:ncorp]])[1][:ncorp]
         detail = "\n".join(diffs) + "\n\nmodel under the regenerated configuration, corpus:\n" + \
             "\n".join("%s -> %s" % (a, b) for a, b in zip(lines, pred)) + "\n\n" + \
-            json.dumps({"api_not_ok": [x for x in diag["api"]["not_ok"] if x["verdict"] != "exception"],
+            json.dumps({"api_not_ok": diag["api"]["bad"],
                         "callbacks_not_wrapped":
                         [s for s in diag["callbacks"]["not_wrapped"] if s["verdict"].startswith("UNWRAPPED")],
                         "callback_scan": {k: diag["callbacks"][k] for k in ("blind", "missing_types")}},
@@ -200,4 +250,12 @@ def main(run):
                       tag="config", no_input=True)
     run.cov["tie_seconds"] = round(time.time() - t0, 1)
     # ---- stress on the real API with real threads
+    if getattr(run, "replay", None):
+        for ln, co in zip(lines, oc):
+            vlib.log("replay: %s\n  impl: %s" % (ln, co))
+        if replay_stress:
+            lock_stress.stress(run, plan=replay_stress, errpaths=False)
+        elif "errpaths" in open(run.replay).read():
+            lock_stress.stress(run, plan=[], errpaths=True)
+        return
     lock_stress.stress(run)
